@@ -12,6 +12,7 @@ THEOREMS = ['C18.memo_set_order_irrelevant', 'C18.serialisation_is_a_function_of
 
 def run(rep):
     rng = random.Random(rep.seed * 1000003 + 18)
+    rep.level = 'translation_validation'
     ok, detail = core.proof_gate(rep, 'Pi2.Props.C18', THEOREMS)
     quick = rep.tier == 'quick'
     mods = ms.gen_modules(rng, 24 if quick else 400)
